@@ -55,14 +55,15 @@ type DB struct {
 	NextBoxID   imap.InternalMailboxID
 
 	// ghost state
-	Log         []string // effect log of the current (or last) write transaction
-	Writes      int      // number of mutating operations executed in the current transaction
-	Commits     int
-	Rollbacks   int
-	OnCommit    func(d *DB) // called after every committed write transaction (harness hook: effect log)
-	FaultBudget int // number of operations that may still fail (symbolic choice per operation)
-	Faults      int
-	InTx        bool
+	Log          []string // effect log of the current (or last) write transaction
+	Writes       int      // number of mutating operations executed in the current transaction
+	Commits      int
+	Rollbacks    int
+	OnCommit     func(d *DB) // called after every committed write transaction (harness hook: effect log)
+	FaultBudget  int         // number of operations that may still fail (symbolic choice per operation)
+	CommitFaults bool        // the commit of a write transaction may fail too (counted against FaultBudget): nothing is persisted
+	Faults       int
+	InTx         bool
 }
 
 var ErrFault = errors.New("verifdb: injected database failure")
@@ -150,6 +151,14 @@ func (d *DB) Write(ctx context.Context, op func(context.Context, db.Transaction)
 		d.restore(saved)
 		d.Rollbacks++
 		return err
+	}
+	if d.CommitFaults && d.Writes > 0 && d.FaultBudget > 0 && vsymBool("commitFault") {
+		// tx.Commit() fails: wrapTx returns the error, SQLite keeps nothing of the transaction
+		d.FaultBudget--
+		d.Faults++
+		d.restore(saved)
+		d.Rollbacks++
+		return ErrFault
 	}
 	d.Commits++
 	if d.Writes > 0 && d.OnCommit != nil {
